@@ -38,6 +38,20 @@ check("C02", "runtime monitoring: history + executable wire model; depth-0 wrapp
       "Trusted: wire model + own permanent; amplitudes compared with loss modes in vacuum, visible photon number "
       "bounded; tolerance 1e-8.", "DESIGN.md 4 C02")
 
+check("C03", "runtime monitoring: post-condition and exception-path monitor on Simulator.simulate against an own "
+      "Glynn-permanent Fock-space reference, over seeded random heralded/lossy circuits, bunched inputs and hostile arguments",
+      "Held on the simulate() calls observed: every returned amplitude equals the reference, lossless herald-free rows "
+      "are unit vectors, outputs=None yields the Fock basis once, and every documented kind of invalid argument raised.",
+      "Trusted: own permanent and herald insertion in /verif/lwverif; the circuit's own U_full/heralds are taken as given "
+      "(C01/C02 decide those); tolerance 1e-9; <=7 photons incl. heralds.", "DESIGN.md 4 C03")
+check("C04", "runtime monitoring: post-condition monitors on Backend.full_probability_distribution and the "
+      "Sampler.probability_distribution getter against an own loss-summed Fock reference, plus a cross-backend "
+      "comparison in the driver, over seeded random lossy/heralded circuits",
+      "Held on the distributions observed: non-negative, no pattern with more photons than injected, equal to the "
+      "loss-summed reference and normalised up to the documented 1e-9 per-state truncation, permanent == slos.",
+      "Trusted: own permanent; allowance 1e-9 x (number of full output patterns); <=5-6 photons, <=14 modes incl. loss.",
+      "DESIGN.md 4 C04")
+
 NOT_APPLICABLE = []
 _EXPLICIT_NA = {}
 for line in open("/verif/properties.jsonl"):
